@@ -265,12 +265,15 @@ func refPub(k *cryptokeys.Key) any {
 	return &k.ECDSA.PublicKey
 }
 
-// digestOK: RSASSA takes exactly one hash value; the statement does not list
-// the digest among the inputs whose wrong size must be an error, so for a
-// digest of another length there is no expectation either way.
+// digestFits: RSASSA and ECDSA names fix the hash (RS256/PS256/ES256 = SHA-256
+// ...), so the digest is exactly one hash value long. The statement does not
+// list the digest among the inputs whose wrong size must be an error, so for a
+// digest of another length there is no expectation either way (crypto/rsa
+// refuses it, crypto/ecdsa truncates or zero-extends it). EdDSA takes the
+// message itself, of any length.
 func digestFits(a *algInfo, n int) bool {
 	switch a.Ref.Class {
-	case cryptoref.SigRSAPKCS1, cryptoref.SigRSAPSS:
+	case cryptoref.SigRSAPKCS1, cryptoref.SigRSAPSS, cryptoref.SigECDSA:
 		return n == a.Ref.Hash.Size()
 	}
 	return true
